@@ -896,9 +896,11 @@ Proof.
 Qed.
 
 Lemma disp_step_inv lost i s :
-  Inv (Some i) s -> Inv None (disp_step lost i s).
+  Inv (Some i) s ->
+  (forall d q, nth_error (disps s) i = Some d -> d_st d = DReady q -> waiter_of q s = false) ->
+  Inv None (disp_step lost i s).
 Proof.
-  intros I. unfold disp_step. destruct (nth_error (disps s) i) as [d|] eqn:Hd.
+  intros I Hw. unfold disp_step. destruct (nth_error (disps s) i) as [d|] eqn:Hd.
   2: { apply (inv_unskip i); auto. intros d H. congruence. }
   assert (Hi : (i < length (disps s))%nat) by (apply nth_error_Some; congruence).
   destruct (inv_rem _ _ I d (nth_error_In _ _ Hd)) as [Hrem Hkw].
@@ -909,7 +911,7 @@ Proof.
       { destruct (set_st_rem d DDone) as [A [B C]].
         apply done_inv; try congruence. }
       destruct lost; [exact X|apply add_log_inv; exact X].
-  - apply run_hs_inv; auto.
+  - rewrite (Hw d q eq_refl St). apply run_hs_inv; auto.
   - apply (inv_unskip i); auto. intros d' H [R|[? R]]; congruence.
   - apply (inv_unskip i); auto. intros d' H [R|[? R]]; congruence.
 Qed.
@@ -953,7 +955,8 @@ Proof.
       * intros q C. eapply covered_pop; eauto; sst; auto; intros; discriminate.
       * intros j _ H. rewrite R in H. destruct H as [H|H]; [discriminate|auto].
       * intros H. discriminate.
-    + apply disp_step_inv. apply pop_disp_inv; auto.
+    + apply disp_step_inv; [apply pop_disp_inv; auto|].
+      intros d q Hd St. unfold waiter_of. sst. apply (inv_rdy _ _ I _ _ _ Hd ltac:(discriminate) St).
     + destruct aw.
       * eapply (pop_cover_inv s _ rs); eauto; sst; auto using incl_refl, incl_appl; try discriminate.
         intros q' [[aw E]|[E|E]]; inversion E; subst. right; left. sst. apply in_or_app. right. left. reflexivity.
